@@ -42,7 +42,7 @@ def rule_a(ctx):
     if not (len(pops) == 1 and len(pushes) == 1):
         return
     pop, push = pops[0], pushes[0]
-    for s in locks + [pop, push]:
+    for s in [pop, push]:
         ctx.ob("buffer|open-guard|%s" % last_seg(s.callee), bool(_flag_load_conds(b, s, True)),
                "a closed buffer ignores writes: every buffer access is on the is_open == true side", [s])
     # evict iff len == capacity
